@@ -274,7 +274,7 @@ func (r *vlRun) poolChanged(l log.Logger, pools *config.Pools) (st controllers.S
 func (r *vlRun) snapshot() (map[string]vObsMem, map[string][4]int64) {
 	mem := map[string]vObsMem{}
 	for k, al := range allocator.VerifSnapshot(r.c.ips) {
-		e := vObsMem{Pool: al.Pool, Ips: kit.AbsList(al.IPs), Sk: al.Sharing, Bk: strings.TrimPrefix(al.Backend, "app="), Ports: []string{}}
+		e := vObsMem{Pool: al.Pool, Ips: kit.AbsList(al.IPs), Sk: al.Sharing, Bk: strings.Replace(al.Backend, "app=", "", 1), Ports: []string{}}
 		for _, p := range al.Ports {
 			e.Ports = append(e.Ports, kit.PortName(p.Proto, p.Port))
 		}
